@@ -803,6 +803,11 @@ async def _run(ctx):
     from c07sec import run_secure
     run_secure(ctx, drv, cov, add, xc, canon_msgs, catalogue, rand_msg, mutate, par_batch)
 
+    # ---- R: the secure model AT THE REAL CIPHER (Proofs/HttpSecureReal.v) evaluated by vm_compute inside Coq against the
+    #         real SecureHomeKitProtocol + parser, read by read: harness/c07real.py
+    from c07real import run_real
+    run_real(ctx, cov, add, canon_msgs, catalogue, rand_msg, mutate)
+
     # ---- D: the model's int()/title()/strip() against CPython
     prims = list(prim_cases(tier))
     for mode in ("int10b", "int10s", "int16"):
